@@ -6,7 +6,7 @@ from . import cachelib as L
 
 PID = 'C03'
 PINS = C.load_pins('C03')
-PROOF_FILES = ['Proofs/LatestProofs.v', 'Proofs/OrderProofs.v', 'Proofs/CacheProofs.v', 'Proofs/SemVerOrder.v', 'Props/C03.v']
+PROOF_FILES = ['Proofs/LatestProofs.v', 'Proofs/OrderProofs.v', 'Proofs/CacheProofs.v', 'Proofs/SemVerOrder.v', 'Proofs/GoOrderProofs.v', 'Proofs/ParseShow.v', 'Proofs/OfferedText.v', 'Props/C03.v']
 IMPORTS = L.IMPORTS
 
 SPELLINGS = ['1.2.3', 'v1.2.3', '1.2', '1', 'v1', '=1.2.3', '^1.2.3', '~1.2', '>=1.2.3', '<=1.2.3', '>1.2.3', '<1', '1.2.3-alpha', '1.2.3-alpha.1', '1.2.3-1',
@@ -86,7 +86,7 @@ def run(tier, seed):
         rep.broke('harness does not build against /repo', hlog[-1500:])
         return rep.finish()
     rnd = random.Random(seed)
-    n, steps = (150, 45) if tier == 'quick' else (3000, 150)
+    n, steps = (150, 45) if tier == 'quick' else (1500, 120)
     cases, err = C.run_harness('cache-seq', seed + 77, n, {'steps': steps}, timeout=3000)
     if err:
         rep.broke('harness stream cache-seq failed', err)
